@@ -19,7 +19,7 @@ def spec(tier, seed, repo):
              "returned offset, mix + open; chain = 2..4 consecutive shuffles by different players, opened only at "
              "the end, oracle = composition of the recorded index vectors; import-* = the library's own export text "
              "with only the index fields rewritten (all n^n vectors / random non-bijections and out-of-range values), "
-             "accepted iff sorted(index vector) == 0..n-1.  evaluations = compared card openings + judged secrets + "
+             "accepted iff sorted(index vector) == 0..n-1 (also when the importing object already holds a secret).  evaluations = compared card openings + judged secrets + "
              "judged imports; distinct = distinct (pi, type pattern) / index vectors / mutation classes per case",
         assumptions=["reference model for card types is the type passed to TMCG_Create{Open,Private}Card",
                      "512/160-bit groups (random g, canonical g, GroupQR), 512/576-bit Rabin keys without NIZK proof",
@@ -35,5 +35,5 @@ def spec(tier, seed, repo):
                 "imports_class_duplicate": 30, "imports_class_out_of_range_n": 30,
                 "imports_class_out_of_range_n+1": 30, "imports_class_out_of_range_2^64-1": 30,
                 "imports_class_missing_last": 30, "imports_big_n": 30,
-                "given_perms_n5": 120 * 6},
+                "given_perms_n5": 120 * 6, "imports_into_used_object": 12},
     )
